@@ -17,7 +17,7 @@ import time
 
 VERIF = os.path.dirname(os.path.dirname(os.path.dirname(os.path.abspath(__file__))))
 REPO = os.environ.get('OPQ_REPO', '/repo')
-WORK = os.path.join(VERIF, '.work')
+WORK = os.environ.get('OPQ_WORK') or os.path.join(VERIF, '.work')
 DRIVER_DIR = os.path.join(VERIF, 'engine', 'driver')
 DRIVER = os.path.join(DRIVER_DIR, 'target', 'release', 'opqmir')
 HARNESS = os.path.join(VERIF, 'engine', 'harness', 'suites')
@@ -28,6 +28,21 @@ KE = ['r255', 'p256', 'p384', 'p521', 'c25519']
 ALL_SUITES = ['%s_%s' % (o, k) for o in OPRF for k in KE]
 # quick tier: every OPRF suite and every KE group at least once
 QUICK_SUITES = ['r255_r255', 'p256_c25519', 'p384_p521', 'p521_p256', 'r255_p384']
+
+
+def _crate_dir(src_dir, name):
+    """the harness / fixtures crate to compile: the checked-in one, or (when OPQ_REPO points at another copy of the repository, used by
+    tools/seeds.py to evaluate patches without touching /repo) a private copy whose path dependency points there"""
+    if REPO == '/repo':
+        return src_dir
+    dst = os.path.join(WORK, 'crates', name)
+    if os.path.isdir(dst):
+        shutil.rmtree(dst)
+    shutil.copytree(src_dir, dst, ignore=shutil.ignore_patterns('target', 'Cargo.lock'))
+    p = os.path.join(dst, 'Cargo.toml')
+    txt = open(p).read().replace('path = "/repo"', 'path = "%s"' % REPO)
+    open(p, 'w').write(txt)
+    return dst
 
 
 class MachineryError(Exception):
@@ -124,14 +139,15 @@ def _extract_m(outdir, release=False):
     target = os.path.join(WORK, 'tm-rel' if release else 'tm')
     odir = os.path.join(outdir, 'rel') if release else outdir
     os.makedirs(odir, exist_ok=True)
-    shutil.copyfile(os.path.join(REPO, 'Cargo.lock'), os.path.join(HARNESS, 'Cargo.lock'))
+    hdir = _crate_dir(HARNESS, 'suites')
+    shutil.copyfile(os.path.join(REPO, 'Cargo.lock'), os.path.join(hdir, 'Cargo.lock'))
     for attempt in (0, 1):
         _rm_fingerprints(target, 'suites-')
         extra = {'OPQ_MODE': 'M', 'OPQ_CRATE': 'suites', 'OPQ_OUT_DIR': odir, 'OPQ_SUITES': 'all', 'CARGO_TARGET_DIR': target}
         env = _env(extra)
         if release:
             env['RUSTFLAGS'] += ' -Cdebug-assertions=off -Coverflow-checks=off'
-        _run_cargo(['cargo', '+nightly', 'check', '--lib', '--offline'], HARNESS, env, 'M-mode' + ('(release cfg)' if release else ''))
+        _run_cargo(['cargo', '+nightly', 'check', '--lib', '--offline'], hdir, env, 'M-mode' + ('(release cfg)' if release else ''))
         if os.path.exists(os.path.join(odir, 'm-DONE')):
             return
         shutil.rmtree(target, ignore_errors=True)
@@ -143,7 +159,8 @@ def _extract_f(outdir):
     if not os.path.isdir(FIXTURES):
         return
     target = os.path.join(WORK, 'tf')
-    shutil.copyfile(os.path.join(REPO, 'Cargo.lock'), os.path.join(FIXTURES, 'Cargo.lock'))
+    fxdir = _crate_dir(FIXTURES, 'fixtures')
+    shutil.copyfile(os.path.join(REPO, 'Cargo.lock'), os.path.join(fxdir, 'Cargo.lock'))
     fdir = os.path.join(outdir, 'fx')
     os.makedirs(fdir, exist_ok=True)
     for mode, marker in (('M', 'm-DONE'), ('G', 'g-fx.json')):
@@ -151,7 +168,7 @@ def _extract_f(outdir):
             _rm_fingerprints(target, 'fixtures-')
             env = _env({'OPQ_MODE': mode, 'OPQ_CRATE': 'fixtures', 'OPQ_OUT_DIR': fdir, 'OPQ_SUITES': 'all', 'OPQ_TAG': 'fx',
                         'CARGO_TARGET_DIR': target})
-            _run_cargo(['cargo', '+nightly', 'check', '--lib', '--offline'], FIXTURES, env, 'fixtures(%s)' % mode)
+            _run_cargo(['cargo', '+nightly', 'check', '--lib', '--offline'], fxdir, env, 'fixtures(%s)' % mode)
             if os.path.exists(os.path.join(fdir, marker)):
                 break
             shutil.rmtree(target, ignore_errors=True)
